@@ -27,6 +27,7 @@ type Profile struct {
 	CloseOps   bool
 	IOOps      bool
 	Names      []string
+	Pads       bool   // documents carry a padding string of 0 .. 70 000 bytes
 	PrefixNames bool  // the collections include a family of names that are prefixes of each other
 	Aim        string // queries, sorts and documents favour this field
 	AltIds     bool // ids in every textual form uuid.FromString accepts, not only the canonical one
@@ -284,6 +285,9 @@ func (g *Gen) doc(id V) V {
 		if g.chance(p) {
 			kv = append(kv, f, g.fieldValue(f))
 		}
+	}
+	if g.P.Pads && g.chance(0.6) {
+		kv = append(kv, "p", APad([]int{0, 100, 4000, 4096, 4200, 5000, 70000}[g.r.Intn(7)]))
 	}
 	if g.chance(0.06) { // a top-level field whose *name* contains a dot (not a nested path)
 		kv = append(kv, g.pick([]string{"x.y", "app.version", "n.a"}), g.smallNum())
@@ -643,7 +647,7 @@ func (g *Gen) updater(bulk bool) []interface{} {
 	case g.chance(g.P.Invalid):
 		// an update producing an invalid document: rewrites _id / breaks _expiresAt
 		if g.chance(0.35) { // the same UUID spelled differently is a different _id
-			return []interface{}{"idform", g.pick([]string{"upper", "braces", "urn"})}
+			return []interface{}{"idform", g.pick([]string{"upper", "braces", "urn", "bare", "bare"})}
 		}
 		if g.chance(0.5) {
 			return []interface{}{"set", B("_id"), AStr(g.pick(g.ids))}
@@ -966,6 +970,23 @@ func (g *Gen) indexCatalogSweep() []E {
 		}
 	}
 	g.setFocus(c)
+	// filter through one index, sort on the field of another
+	var live []string
+	for _, f := range fields {
+		if g.idx[c][f] {
+			live = append(live, f)
+		}
+	}
+	for i := 0; i+1 < len(live) && i < 2; i++ {
+		for _, dir := range []int{1, -1} {
+			q := []interface{}{[]interface{}{"where", []interface{}{"un", "gte", B(live[i]), []interface{}{"lit", ANil()}}},
+				[]interface{}{"sort", []interface{}{[]interface{}{B(live[i+1]), dir}}}}
+			if g.chance(0.5) {
+				q = append(q, []interface{}{"skip", 1}, []interface{}{"limit", 2})
+			}
+			evs = append(evs, E{"op": "FindAll", "c": c, "q": q})
+		}
+	}
 	// every surviving index visited backwards and forwards, without bounds
 	for _, f := range fields {
 		for _, dir := range []int{-1, 1} {
